@@ -407,6 +407,18 @@ class Interp:
             return b""
         if f in (("name", "list"), ("name", "dict"), ("name", "tuple")) and not args and not kws:
             return (f[1], ())
+        if f == ("name", "divmod") and len(args) == 2 and is_int(args[0]) and is_int(args[1]) and args[1] != 0:
+            q, r = divmod(args[0], args[1])
+            return ("tuple", (q, r))
+        if f == ("name", "int") and len(args) == 1 and is_int(args[0]):
+            return args[0]
+        if f == ("name", "str") and len(args) == 1 and isinstance(args[0], (int, str)) and not isinstance(args[0], bool):
+            return str(args[0])
+        if f == ("name", "abs") and len(args) == 1 and is_int(args[0]):
+            return abs(args[0])
+        if f == ("name", "isinstance") and len(args) == 2 and isinstance(args[0], (int, str, bytes, bool, type(None))) \
+                and isinstance(args[1], tuple) and args[1][0] == "name" and args[1][1] in ("int", "str", "bytes", "bool", "float"):
+            return isinstance(args[0], {"int": int, "str": str, "bytes": bytes, "bool": bool, "float": float}[args[1][1]])
         if f == ("name", "bool") and len(args) == 1:
             tv = self.truth(args[0])
             if tv is not None:
